@@ -202,11 +202,13 @@ func runCase(c Case) []ev.Violation {
 	r.seq++
 	var se []stack.Endpoint
 	var urls []string
+	dead := 0
 	for i, e := range c.EPs {
 		r.be[i].Reset()
 		u := r.be[i].URL()
 		if e.Refuse {
-			u = fmt.Sprintf("http://127.0.0.1:%d", hx.FreePort())
+			u = fmt.Sprintf("http://127.0.0.1:%d", hx.DeadPort(dead))
+			dead++
 		}
 		urls = append(urls, u)
 		// priorities descend so that with the priority balancer earlier endpoints are preferred
